@@ -176,15 +176,22 @@ Theorem C12_before_fix_686cc56_refuted :
 Proof. exact prefix_686cc56_refuted. Qed.
 Print Assumptions C12_before_fix_686cc56_refuted.
 
+(* before fix a146158 (found by the GoLite translation of revocationFinalResult, props/C12_Generated.v) a
+   nil entry among the server results of a revocation result reached a dereference; now it is skipped *)
+Theorem C12_before_fix_a146158_refuted :
+  native_v1 LStrict (sc_rev RevNilServer) [] = NPanic /\
+  native LStrict (sc_rev RevNilServer) [] =
+    NGo [(TInt, false); (TAuth, false); (TExp, false); (TTs, false); (TRev, false)] /\
+  (exists o, model (i_base EVerify (v_strict PMNil) VLib (sc_rev RevNilServer)) = ORet false None [Some o] None /\
+             oc_err o = None /\
+             oc_results o = [(TInt, false); (TAuth, false); (TExp, false); (TTs, false); (TRev, false)]).
+Proof. exact prefix_a146158_refuted. Qed.
+Print Assumptions C12_before_fix_a146158_refuted.
+
 (* [wf] cannot be weakened: each contract violated alone reaches a dereference *)
 Theorem C12_contracts_needed :
   model (i_base ENVerifyBlob (v_strict PMNil) (VCustom None false) sc_good) = OPanic /\
-  model (i_base EVerify (mk_v (Some SelBadLevel) None PMNil) VLib sc_good) = OPanic /\
-  (* the revocation validator: a nil entry among the server results of a result (found by the GoLite
-     translation of revocationFinalResult, props/C12_Generated.v) *)
-  model (i_base EVerify (v_strict PMNil) VLib (sc_rev RevNilServer)) = OPanic /\
-  model (mk_input ENVerify false (v_strict PMNil) VLib sc_good
-                  (mk_nreq false 1 RefOK false false false [Sig (sc_rev RevNilServer)]) b_good CCNone) = OPanic.
+  model (i_base EVerify (mk_v (Some SelBadLevel) None PMNil) VLib sc_good) = OPanic.
 Proof. exact contracts_needed. Qed.
 Print Assumptions C12_contracts_needed.
 
@@ -294,7 +301,7 @@ Theorem C12_nil_plugin_manager_no_plugin : forall l sc r,
 Proof. exact nil_pm_plugin_irrelevant. Qed.
 Print Assumptions C12_nil_plugin_manager_no_plugin.
 
-Theorem C12_nil_plugin_manager_no_panic : forall l sc, sc_wf sc = true -> process_signature l PMNil sc <> PSPanic.
+Theorem C12_nil_plugin_manager_no_panic : forall l sc, process_signature l PMNil sc <> PSPanic.
 Proof. exact nil_pm_no_panic. Qed.
 Print Assumptions C12_nil_plugin_manager_no_panic.
 
